@@ -125,6 +125,10 @@ func c07Enumerate(tier string, yield func(any)) {
 	for cr := 0; cr < 3; cr++ {
 		yield(&c07Case{Kind: "aki", A: -1, B: cr})
 		yield(&c07Case{Kind: "aki", A: -1, B: cr, C: 1}) // under a separate issuer
+		yield(&c07Case{Kind: "aki", A: -1, B: cr, C: 2}) // self-signed, with its own key bits manipulated: the hash follows the bits in the issuer's (its own) certificate
+		yield(&c07Case{Kind: "aki", A: -1, B: cr, C: 3}) // under a separate issuer, own key bits manipulated (the issuer's are not)
+		yield(&c07Case{Kind: "ski", B: cr, C: 2})
+		yield(&c07Case{Kind: "ski", B: cr, C: 3})
 		for i := range c07AKILens {
 			yield(&c07Case{Kind: "aki", A: i, B: cr})
 		}
@@ -288,7 +292,7 @@ func c07Exec(x *engine.Ctx, cc any) {
 		e = refcfg.Ext{Kind: refcfg.KAKI, Critical: c06Crit(c.B)}
 		if c.A < 0 {
 			e.AKIHash = true
-			subordinate = c.C == 1
+			subordinate = c.C == 1 || c.C == 3
 		} else {
 			e.AKIBin = refcfg.Bin(bytes.Repeat([]byte{byte(0x30 + c.A)}, c07AKILens[c.A]))
 		}
@@ -296,11 +300,14 @@ func c07Exec(x *engine.Ctx, cc any) {
 		e = refcfg.Ext{Kind: refcfg.KAKI, AKIBin: refcfg.Bin(c07KeyIDBytes(c.A, c.B))}
 	case "ski":
 		e = refcfg.Ext{Kind: refcfg.KSKI, SKI: refcfg.S("hash"), Critical: c06Crit(c.B)}
-		subordinate = c.C == 1
+		subordinate = c.C == 1 || c.C == 3
 	case "ocsp":
 		e = refcfg.Ext{Kind: refcfg.KOCSP, Critical: c06Crit(c.B)}
 	}
 	cfg := &refcfg.CertCfg{Path: "ent.yaml", Subject: "CN=ext", KeyAlg: "P-224", Exts: []refcfg.Ext{e}}
+	if (c.Kind == "aki" || c.Kind == "ski") && c.C >= 2 {
+		cfg.Manip = &refcfg.Manip{TbsPubKey: refcfg.Bin([]byte{0xde, 0xad, 0xbe, 0xef, 0x01})}
+	}
 	d := &Dir{Certs: []*refcfg.CertCfg{cfg}}
 	if subordinate {
 		cfg.Issuer = "ca"
@@ -327,7 +334,7 @@ func c07Exec(x *engine.Ctx, cc any) {
 		return
 	}
 	for _, df := range diffs {
-		if df.Owner == "C07" || (df.Owner == "C01" && (c.Kind == "ski" || c.Kind == "aki")) {
+		if df.Owner == "C07" || ((df.Owner == "C01" || df.Owner == "C19") && strings.Contains(df.Class, "keyid") && (c.Kind == "ski" || c.Kind == "aki")) || (df.Owner == "C01" && (c.Kind == "ski" || c.Kind == "aki") && c.C < 2) {
 			x.Violation(df.Class, df.Detail+"\n"+short(string(cfg.YAML()), 400))
 		}
 	}
@@ -339,7 +346,7 @@ func init() {
 	register(&engine.Check{
 		ID:          "C07",
 		Level:       "exploration",
-		Rule:        "keyUsage: all 128 flag subsets x critical 3 (written order varied); subjectAlternativeName: all lists of length 0..4 over {mail,dns,ip} x 2 values plus the all-zero address and a mixed-case dns name (4681; thorough 0..5), and every octet value 0..255 in each of the four positions of an ip name written plain or with one or two leading zeros (3072); basicConstraints: ca {omitted,false,true} x pathLen {omitted, 0..255, 256, 65535, 2^31} (780); certificatePolicies: 30 policy shapes (plain, cps, every userNotice combination of organization x numbers x text, two qualifiers), singles and all pairs; authorityInformationAccess: lists 0..3 (thorough 0..4) over 7 URIs (two plain ones and five spellings a normalising library would rewrite); extendedKeyUsage: lists 0..3 (thorough 0..4) over 6 names + 3 OIDs (one of them below arc 2 with a second arc above 39); subjectAlternativeName lists up to 4 (thorough 5); authorityKeyIdentifier: hash (self-signed and under an issuer) and explicit ids of 1,20,32,127,128,768,769,1024 bytes x critical 3, every one-octet id (256) and a three-octet id for every pair of leading base64 characters of its !binary spelling (4096); subjectKeyIdentifier hash; ocspNoCheck; every string-, OID- and list-valued member at 25 lengths around the 127/128, 255/256 and 65535/65536 DER length-form boundaries. Each through a whole run; the emitted body must equal the reference DER encoding written from RFC 5280 / 6960 (DER is canonical, so byte equality = an independent decoder reading back exactly the configured value). non-trivial = distinct case",
+		Rule:        "keyUsage: all 128 flag subsets x critical 3 (written order varied); subjectAlternativeName: all lists of length 0..4 over {mail,dns,ip} x 2 values plus the all-zero address and a mixed-case dns name (4681; thorough 0..5), and every octet value 0..255 in each of the four positions of an ip name written plain or with one or two leading zeros (3072); basicConstraints: ca {omitted,false,true} x pathLen {omitted, 0..255, 256, 65535, 2^31} (780); certificatePolicies: 30 policy shapes (plain, cps, every userNotice combination of organization x numbers x text, two qualifiers), singles and all pairs; authorityInformationAccess: lists 0..3 (thorough 0..4) over 7 URIs (two plain ones and five spellings a normalising library would rewrite); extendedKeyUsage: lists 0..3 (thorough 0..4) over 6 names + 3 OIDs (one of them below arc 2 with a second arc above 39); subjectAlternativeName lists up to 4 (thorough 5); authorityKeyIdentifier: hash (self-signed and under an issuer, each also with the entity's own key bits manipulated) and explicit ids of 1,20,32,127,128,768,769,1024 bytes x critical 3, every one-octet id (256) and a three-octet id for every pair of leading base64 characters of its !binary spelling (4096); subjectKeyIdentifier hash; ocspNoCheck; every string-, OID- and list-valued member at 25 lengths around the 127/128, 255/256 and 65535/65536 DER length-form boundaries. Each through a whole run; the emitted body must equal the reference DER encoding written from RFC 5280 / 6960 (DER is canonical, so byte equality = an independent decoder reading back exactly the configured value). non-trivial = distinct case",
 		Bound:       map[string]string{"lists": "quick <=3, thorough SAN<=4 AIA<=5 EKU<=4", "pathLen": "0..255 + 3 large"},
 		Assumptions: []string{"a userNotice with neither organization, numbers nor text has no defined encoding and is excluded", "SAN ip octets outside 0..255 are outside the domain (C20 covers the error clause)"},
 		Budget:      budgets(quickBudget, thoroughBudget),
